@@ -43,7 +43,9 @@ let show_outcome = function
   | OkThenAbandoned -> "ok-then-abandoned"
   | Other -> "other"
 
-let run (path : String.t) =
+(* [only]: "" = judge everything; "c07" / "c01" = count as property failures only what belongs to
+   that property (names and isolation); the rest is left to C11's run of the same engine *)
+let run (path : String.t) (only : String.t) =
   let lines = Array.of_list (read_lines path) in
   let n = Array.length lines in
   let i = ref 0 and cases = ref 0 and corr_fail = ref 0 and prop_fail = ref 0 in
@@ -57,8 +59,9 @@ let run (path : String.t) =
     if String.length l >= 9 && String.sub l 0 9 = "case srv " then begin
       let start = !i in
       incr i; incr cases;
-      let corr = ref true and prop = ref true and why = ref "" in
+      let corr = ref true and prop = ref true and why = ref "" and tags = ref [] in
       let note s = if !why = "" then why := s in
+      let tag t = if not (List.mem t !tags) then tags := t :: !tags in
       (* model state *)
       let table = ref [] and ids = Hashtbl.create 7 and next_id = ref 1 in
       let id_of key = (match Hashtbl.find_opt ids key with Some x -> x | None -> let x = !next_id in incr next_id; Hashtbl.replace ids key x; x) in
@@ -80,13 +83,13 @@ let run (path : String.t) =
            if show_outcome o <> reply then (corr := false; note (Printf.sprintf "open %s on %s/%s answered %s, model %s" kind ns tp reply (show_outcome o)));
            if is_register kind then begin
              if reply = "ok" then begin
-               if not valid then (prop := false; note "an invalid topic name was acknowledged");
+               if not valid then (prop := false; tag "c07"; note "an invalid topic name was acknowledged");
                (match Hashtbl.find_opt first_ack (ns, tp) with
                 | None -> Hashtbl.replace first_ack (ns, tp) (pattern_of kind)
                 | Some p -> if p <> pattern_of kind then (prop := false; note ("a " ^ kind ^ " registration was acknowledged on a topic used as " ^ p)))
              end else if String.length reply > 4 && String.sub reply 0 4 = "err:" then begin
-               if (not valid) && reply <> "err:4" then (prop := false; note ("invalid name answered " ^ reply ^ " instead of the invalid-topic code"));
-               if valid && reply = "err:4" then (prop := false; note "a valid name was refused as invalid");
+               if (not valid) && reply <> "err:4" then (prop := false; tag "c07"; note ("invalid name answered " ^ reply ^ " instead of the invalid-topic code"));
+               if valid && reply = "err:4" then (prop := false; tag "c07"; note "a valid name was refused as invalid");
                if valid && (match Hashtbl.find_opt first_ack (ns, tp) with Some p -> p = pattern_of kind | None -> true) then
                  (prop := false; note ("a registration that fits the topic was refused with " ^ reply))
              end else (prop := false; note ("a register frame was answered neither Ok nor Error: " ^ reply))
@@ -103,6 +106,7 @@ let run (path : String.t) =
                 | Some TReqRep -> if pat <> "rr" then (corr := false; note "model table has another pattern for a probed topic")
                 | None -> (corr := false; note "probed topic missing from the model table"))
             | None -> (corr := false; note "probed topic never opened"))
+         | ["iso"; "->"; res] -> if res <> "ok" then (prop := false; tag "c07"; tag "c01"; note ("distinct topic names share traffic: " ^ res))
          | ["alive"; "->"; res] -> alive := true; if res <> "ok" then (prop := false; note ("server no longer serves a fresh topic: " ^ res))
          | "harness_error" :: _ -> prop := false; note lines.(!i)
          | ["end"] -> ended := true
@@ -110,6 +114,7 @@ let run (path : String.t) =
         incr i
       done;
       if not (!ended && !alive) then (prop := false; note "case did not finish");
+      if only <> "" && not !prop && not (List.mem only !tags) then (prop := true; corr := false; why := "(left to C11) " ^ !why);
       if not !corr then incr corr_fail;
       if not !prop then incr prop_fail;
       if not (!corr && !prop) then
